@@ -398,7 +398,7 @@ fn big(a: &Args) {
     let mut plan: Vec<(&str, usize, usize)> = vec![
         ("ss_u16", 4096, 60000), ("ss_u32", 1024, 20000), ("ss_u16", 256, 100000), ("smh_f64_fnv", 1024, 5000), ("smh_f32_fnv", 4096, 50),
         ("smh2_u64_fnv", 1024, 5000), ("smh2_u32_xx", 256, 3000), ("pmh3", 1024, 3000), ("pmh2", 512, 2000), ("pmh3a", 1024, 3000),
-        ("ss_u32", 4096, 7), ("smh_f64_no", 2048, 3),
+        ("ss_u32", 4096, 7), ("smh_f64_no", 2048, 3), ("ss_def_u16", 4096, 9000), ("ss_def_u32", 4096, 40),
     ];
     if thorough {
         plan.push(("ss_u16", 4096, 1000000));
